@@ -38,6 +38,10 @@ type c09Plan struct {
 	// RestoreSlow: the restoring goroutine is held just before it presumes the restored targets healthy until the
 	// bubble is idle (whatever probes were already started have been answered by then)
 	RestoreSlow bool `json:"restore_slow,omitempty"`
+	// Together: probe answers that arrive at one virtual instant are handed to the proxy at the same real moment
+	// (spin rendezvous in the harness's probe transport): the health changes they cause, and the rotation updates
+	// after them, contend
+	Together bool `json:"together,omitempty"`
 }
 
 func c09Gen(t *rapid.T) c09Plan {
@@ -84,6 +88,7 @@ func c09Gen(t *rapid.T) c09Plan {
 	}
 	p.Restart = rapid.IntRange(0, 3).Draw(t, "restart") == 0
 	p.RestoreSlow = p.Restart && rapid.Bool().Draw(t, "restore-slow")
+	p.Together = p.N >= 2 && rapid.Bool().Draw(t, "together")
 	p.DrainAt = -1
 	if rapid.IntRange(0, 2).Draw(t, "drain-episode") == 0 {
 		p.DrainAt = rapid.IntRange(0, ne-1).Draw(t, "drain-at")
@@ -189,6 +194,10 @@ func c09Run(t *testing.T, p c09Plan) (res vfResult) {
 			res.label("restarted-from-state-file")
 		}
 		timeout := vfMs(p.ProbeTimeoutMs)
+		if p.Together {
+			w.probeBarrier.Store(true)
+			res.label("simultaneous-probe-answers-handed-over-together")
+		}
 
 		type unit []string // targets that received the requests of one sequential request / one batch
 		var stretch []unit
